@@ -104,6 +104,8 @@ func init() {
 		// internal/bytealg assembly
 		"internal/bytealg.IndexByte":       func(fr *frame, a []value) value { return fr.i.indexByte(a[0], a[1]) },
 		"internal/bytealg.IndexByteString": func(fr *frame, a []value) value { return fr.i.indexByte(a[0], a[1]) },
+		"internal/bytealg.LastIndexByte":       func(fr *frame, a []value) value { return fr.i.lastIndexByte(a[0], a[1]) },
+		"internal/bytealg.LastIndexByteString": func(fr *frame, a []value) value { return fr.i.lastIndexByte(a[0], a[1]) },
 		"internal/bytealg.Count":           func(fr *frame, a []value) value { return fr.i.countByte(a[0], a[1]) },
 		"internal/bytealg.CountString":     func(fr *frame, a []value) value { return fr.i.countByte(a[0], a[1]) },
 		"internal/bytealg.Equal": func(fr *frame, a []value) value {
@@ -297,6 +299,16 @@ func (i *interpreter) indexByte(s, c value) value {
 	b := seqBytes(s)
 	for k := range b {
 		if i.byteEq(b[k], c, "IndexByte") {
+			return k
+		}
+	}
+	return -1
+}
+
+func (i *interpreter) lastIndexByte(s, c value) value {
+	b := seqBytes(s)
+	for k := len(b) - 1; k >= 0; k-- {
+		if i.byteEq(b[k], c, "LastIndexByte") {
 			return k
 		}
 	}
@@ -849,7 +861,9 @@ type fmtFlags struct {
 func (i *interpreter) sprintf(formatV value, args []value) value {
 	format, ok := formatV.(string)
 	if !ok {
-		panic(engineAbort{kind: abortUnsupported, msg: "Sprintf with symbolic format"})
+		// symbolic format bytes: the rendering is opaque (Go's fmt never
+		// panics on a format string; the result is some string)
+		return "⟦fmt⟧"
 	}
 	var parts []value
 	argi := 0
